@@ -435,8 +435,8 @@ pub fn on_probe_trace(arena: u8, id: u32) {
     }
 }
 
-pub fn set_quiet_panics(q: bool) {
-    QUIET_PANICS.with(|c| c.set(q));
+pub fn set_quiet_panics(q: bool) -> bool {
+    QUIET_PANICS.with(|c| c.replace(q))
 }
 
 /// Install a process-wide panic hook that stays silent for expected (injected / probed) panics.
